@@ -43,20 +43,20 @@ NONBINDING = ({}, {"D_total": 100000}, {"tol": 1e-15}, {"tol": 1e-15, "D_total":
 
 def plan(tier):
     if tier == "thorough":
-        return {"cases": 16000, "shards": 16, "budget_s": 800}
-    return {"cases": 1500, "shards": 8, "budget_s": 100}
+        return {"cases": 12000, "shards": 16, "budget_s": 800}
+    return {"cases": 1500, "shards": 8, "budget_s": 110}
 
 
 def floors(tier):
-    """About a quarter of the smallest count seen over seeds 0..5 on the unchanged tree (thorough: x8 for 11x the cases)."""
-    k = 8 if tier == "thorough" else 1
-    f = {"evaluations": 1200, "nodes_compared": 3000, "numbers_compared": 400, "obs_sites_crosschecks": 2000,
-         "obs_matrix_crosschecks": 2000, "operands": 1200, "factor_nonunit_operands": 900, "N=1": 30, "N=2": 80, "N=5": 60, "N=6": 60,
+    """About a quarter to a third of the smallest count seen over seeds 0..5 on the unchanged tree (thorough: x6 for 8x the cases)."""
+    k = 6 if tier == "thorough" else 1
+    f = {"evaluations": 600, "nodes_compared": 3000, "numbers_compared": 400, "obs_sites_crosschecks": 1500,
+         "obs_matrix_crosschecks": 1500, "operands": 1200, "factor_nonunit_operands": 900, "N=1": 30, "N=2": 80, "N=5": 60, "N=6": 60,
          "measure:overlap": 100, "measure:mpo": 70, "measure:mpo-sum": 30, "measure:mpo-pbc": 20, "measure:env-sum": 20,
          "measure:on_bra": 8, "measure:charged-op:nonzero": 4, "zipper": 60, "zipper:pbc": 15, "compression:1site": 12,
          "compression:2site": 12, "leaf:harness": 700, "leaf:random": 200, "leaf:product": 200, "leaf:from_tensor": 120,
          "from_tensor:balance": 35, "from_tensor:first": 35, "from_tensor:last": 35, "nonzero_charge_leaves": 400,
-         "complex_leaves": 600, "addn_mixed_sign_or_phase": 25, "matmul_mode_meta": 20, "central:reverse": 5,
+         "complex_leaves": 600, "addn_mixed_sign_or_phase": 25, "matmul_mode_meta": 20, "central:reverse": 4,
          "central_block_comparisons": 70, "central:add-multiply-rejected": 35}
     for op in ("add", "sub", "addn", "mul", "rmul", "div", "neg", "npmul", "matmul:mpo@mps", "matmul:mpo@mpo", "conj", "T",
                "H", "reverse", "copy"):
